@@ -79,8 +79,9 @@ func c14Dynamic(rt *rapid.T) (string, gast.Expr, bool) {
 	return "", nil, false
 }
 
-// c14Inject adds a failing sub-expression to a rule and says where.
-func c14Inject(rt *rapid.T, r *gast.Rule, st *facts.State) (where string, kind string) {
+// c14FailBool draws a boolean expression that fails to evaluate (statically, or depending on a hot
+// location so that the failure starts or stops during the run).
+func c14FailBool(rt *rapid.T, st *facts.State) (gast.Expr, string, func() gast.Expr) {
 	f := c14FailInt[rapid.IntRange(0, len(c14FailInt)-1).Draw(rt, "fail_kind")]
 	if len(c14Hot) > 0 && rapid.IntRange(0, 1).Draw(rt, "dynamic_failure") == 0 {
 		if name, e, ok := c14Dynamic(rt); ok {
@@ -99,17 +100,112 @@ func c14Inject(rt *rapid.T, r *gast.Rule, st *facts.State) (where string, kind s
 			failBool = &gast.Paren{X: failBool}
 		}
 	}
-	if rapid.IntRange(0, 2).Draw(rt, "fail_where") > 0 {
-		switch rapid.IntRange(0, 3).Draw(rt, "fail_join") {
-		case 0:
-			r.When = failBool
-		case 1:
-			r.When = &gast.Bin{Op: gast.OpAnd, L: r.When, R: failBool}
-		case 2:
-			r.When = &gast.Bin{Op: gast.OpOr, L: failBool, R: r.When}
-		default:
-			r.When = &gast.Bin{Op: gast.OpOr, L: r.When, R: failBool}
+	return failBool, f.Name, f.Mk
+}
+
+// c14JoinCond puts the failing expression into the rule's condition (alone, and-ed, or-ed on either side).
+func c14JoinCond(rt *rapid.T, r *gast.Rule, failBool gast.Expr) {
+	switch rapid.IntRange(0, 3).Draw(rt, "fail_join") {
+	case 0:
+		r.When = failBool
+	case 1:
+		r.When = &gast.Bin{Op: gast.OpAnd, L: r.When, R: failBool}
+	case 2:
+		r.When = &gast.Bin{Op: gast.OpOr, L: failBool, R: r.When}
+	default:
+		r.When = &gast.Bin{Op: gast.OpOr, L: r.When, R: failBool}
+	}
+}
+
+// c14WalkScenario adds two rules that make a condition start failing in the middle of a run while the
+// run goes on: "Walk" reads a slice through an index it advances itself (so it fails once the index
+// leaves the slice), "Tick" keeps the engine cycling.
+func c14WalkScenario(rt *rapid.T, c *val.Case, rs *gen.RuleSet) bool {
+	var ints []gen.PathInfo
+	for _, h := range rs.Hot {
+		if h.T == gast.TInt && !h.ArithOnly && !h.Loose && !h.Unsigned {
+			ints = append(ints, h)
 		}
+	}
+	if len(ints) == 0 {
+		return false
+	}
+	idx := ints[rapid.IntRange(0, len(ints)-1).Draw(rt, "walk_index")]
+	var read gast.Expr = &gast.Bin{Op: gast.OpGTE, L: gast.P("F", "RO").At(idx.Mk()), R: gast.I(0)}
+	switch rapid.IntRange(0, 3).Draw(rt, "walk_shape") {
+	case 1:
+		read = &gast.Paren{X: read}
+	case 2:
+		read = &gast.Not{X: &gast.Paren{X: &gast.Bin{Op: gast.OpLT, L: gast.P("F", "RO").At(idx.Mk()), R: gast.I(0)}}}
+	case 3:
+		read = &gast.Bin{Op: gast.OpAnd, L: &gast.Paren{X: read}, R: gast.B(true)}
+	}
+	walk := &gast.Rule{Name: "Walk", When: read, Then: []gast.Stmt{&gast.Assign{LHS: idx.Mk(), Op: "+=", RHS: gast.I(1)}}}
+	tick := &gast.Rule{Name: "Tick", When: &gast.Bin{Op: gast.OpLT, L: gast.P("F", "H"), R: gast.I(int64(rapid.IntRange(3, 9).Draw(rt, "tick_limit")))},
+		Then: []gast.Stmt{&gast.Assign{LHS: gast.P("F", "H"), Op: "+=", RHS: gast.I(1)}}}
+	sw, st := int64(rapid.IntRange(-2, 2).Draw(rt, "walk_salience")), int64(rapid.IntRange(-2, 2).Draw(rt, "tick_salience"))
+	walk.Salience, tick.Salience = &sw, &st
+	c.Rules = append(c.Rules, walk, tick)
+	c.Init.Go["F"].H = 0
+	c.MaxCycle = 30
+	return true
+}
+
+// c14Rerender renders the texts of a case again after its rules were changed.
+func c14Rerender(c *val.Case) {
+	c.Text = gast.RulesString(c.Rules)
+	c.Texts = nil // the resources were rendered before the change
+	for _, r := range c.Rules {
+		c.SoloTexts[r.Name] = gast.RuleString(r)
+	}
+}
+
+// maybeFailingConditions turns a quarter of the cases of the run-validating checks (C01 C02 C03 C06 C10)
+// into cases in which some condition fails to evaluate - from the start, or from / until some cycle of
+// the run: such a rule is simply not a candidate in that cycle, and everything the property says about
+// the other rules and about later cycles must go on holding.
+func maybeFailingConditions(rt *rapid.T, c *val.Case, rs *gen.RuleSet) bool {
+	if rapid.IntRange(0, 3).Draw(rt, "with_failing_conditions") != 0 {
+		return false
+	}
+	c14Hot = rs.Hot
+	defer func() { c14Hot = nil }()
+	if !usesH(c.Rules) && rapid.IntRange(0, 2).Draw(rt, "walk_scenario") == 0 {
+		c14WalkScenario(rt, c, rs)
+	}
+	n := rapid.IntRange(1, 2).Draw(rt, "ninject")
+	for i := 0; i < n; i++ {
+		r := c.Rules[rapid.IntRange(0, len(c.Rules)-1).Draw(rt, "inject_rule")]
+		fb, _, _ := c14FailBool(rt, c.Init)
+		c14JoinCond(rt, r, fb)
+	}
+	c14Rerender(c)
+	rs.Feat["condition_that_fails_to_evaluate"]++
+	return true
+}
+
+// usesH reports whether some rule mentions the hidden counter F.H / its accessors (the walk scenario
+// uses it as its own clock).
+func usesH(rules []*gast.Rule) bool {
+	found := false
+	for _, r := range rules {
+		txt := gast.RuleString(r)
+		if strings.Contains(txt, "F.H") || strings.Contains(txt, "GetH") || strings.Contains(txt, "BumpH") || strings.Contains(txt, "SetH") {
+			found = true
+		}
+	}
+	return found
+}
+
+// c14Inject adds a failing sub-expression to a rule and says where.
+func c14Inject(rt *rapid.T, r *gast.Rule, st *facts.State) (where string, kind string) {
+	failBool, name, mk := c14FailBool(rt, st)
+	f := struct {
+		Name string
+		Mk   func() gast.Expr
+	}{name, mk}
+	if rapid.IntRange(0, 2).Draw(rt, "fail_where") > 0 {
+		c14JoinCond(rt, r, failBool)
 		return "condition", f.Name
 	}
 	// failing action at a drawn position
@@ -322,31 +418,7 @@ func TestC14(t *testing.T) {
 		// "Walk" reads a slice through an index it advances itself (so it fails once the index leaves
 		// the slice), "Tick" keeps the engine cycling
 		if rapid.IntRange(0, 3).Draw(rt, "walk_scenario") == 0 {
-			var ints []gen.PathInfo
-			for _, h := range rs.Hot {
-				if h.T == gast.TInt && !h.ArithOnly && !h.Loose && !h.Unsigned {
-					ints = append(ints, h)
-				}
-			}
-			if len(ints) >= 1 {
-				idx := ints[rapid.IntRange(0, len(ints)-1).Draw(rt, "walk_index")]
-				var read gast.Expr = &gast.Bin{Op: gast.OpGTE, L: gast.P("F", "RO").At(idx.Mk()), R: gast.I(0)}
-				switch rapid.IntRange(0, 3).Draw(rt, "walk_shape") {
-				case 1:
-					read = &gast.Paren{X: read}
-				case 2:
-					read = &gast.Not{X: &gast.Paren{X: &gast.Bin{Op: gast.OpLT, L: gast.P("F", "RO").At(idx.Mk()), R: gast.I(0)}}}
-				case 3:
-					read = &gast.Bin{Op: gast.OpAnd, L: &gast.Paren{X: read}, R: gast.B(true)}
-				}
-				walk := &gast.Rule{Name: "Walk", When: read, Then: []gast.Stmt{&gast.Assign{LHS: idx.Mk(), Op: "+=", RHS: gast.I(1)}}}
-				tick := &gast.Rule{Name: "Tick", When: &gast.Bin{Op: gast.OpLT, L: gast.P("F", "H"), R: gast.I(int64(rapid.IntRange(3, 9).Draw(rt, "tick_limit")))},
-					Then: []gast.Stmt{&gast.Assign{LHS: gast.P("F", "H"), Op: "+=", RHS: gast.I(1)}}}
-				sw, st := int64(rapid.IntRange(-2, 2).Draw(rt, "walk_salience")), int64(rapid.IntRange(-2, 2).Draw(rt, "tick_salience"))
-				walk.Salience, tick.Salience = &sw, &st
-				c.Rules = append(c.Rules, walk, tick)
-				c.Init.Go["F"].H = 0
-				c.MaxCycle = 30
+			if c14WalkScenario(rt, c, rs) {
 				wheres = append(wheres, "condition")
 				kinds = append(kinds, "walk_out_of_range")
 			}
@@ -359,11 +431,7 @@ func TestC14(t *testing.T) {
 			kinds = append(kinds, k)
 		}
 		// texts must be re-rendered after the injection
-		c.Text = gast.RulesString(c.Rules)
-		c.Texts = nil // the resources were rendered before the injection
-		for _, r := range c.Rules {
-			c.SoloTexts[r.Name] = gast.RuleString(r)
-		}
+		c14Rerender(c)
 		c.ErrOnFail = rapid.Bool().Draw(rt, "err_on_fail")
 		c.RefFailures = true
 		rep, v, err := c14RunStructural(c)
